@@ -81,9 +81,10 @@ def build_simple(g):
         # and the order is "raised" to values that are not larger than the current one (documented as no change)
         r = _rng(g)
         n = g['n']
-        have = set(tuple(e) for e in g['edges'])
-        allp = [(u, v) for u in range(1, n + 1) for v in range(u + 1, n + 1) if (u, v) not in have]
-        extra = r.sample(allp, min(len(allp), 2 + len(have) // 2))
+        have = [tuple(e) for e in g['edges']]          # as described: either orientation
+        named = set(frozenset(e) for e in have)
+        allp = [(u, v) for u in range(1, n + 1) for v in range(u + 1, n + 1) if frozenset((u, v)) not in named]
+        extra = r.sample(allp, min(len(allp), 2 + len(named) // 2))
         G = Graph(n)
         mixed = [(e, True) for e in have] + [(e, False) for e in extra]
         r.shuffle(mixed)
